@@ -34,3 +34,7 @@ mk("C07-runtime-error-not-instanceof-error", "C07.value", [[TRY(1, [D(1, "null_p
 mk("C07-return-from-forin-shifts-caller-operands", "C07.operands", [[CALL(1, 1, "plus")], [LOOP(2, "forin", 2, [RET(13)])]], [])
 mk("C07-finally-break-after-return-from-inner-loop", "C07.log",
    [[CALL(1, 1)], [LOOP(1, "for", 1, [TRY(2, [LOOP(3, "for", 1, [RET(None)])], None, [BRK(1)])])]], [])
+mk("C07-json-parse-error-not-catchable", "C07.log", [[TRY(1, [D(1, "json_parse"), P(2)], [P(3)])]], [0])
+mk("C07-builtin-error-inside-callback-not-catchable", "C07.log", [[TRY(1, [NAT(2, "map", [D(3, "json_parse")])], [P(5)])]], [0])
+mk("C07-regexp-syntax-error-not-catchable", "C07.log", [[TRY(1, [D(1, "regexp_ctor"), P(2)], [P(3)], [P(4)])]], [0])
+mk("C07-match-bad-pattern-not-catchable", "C07.log", [[TRY(1, [D(1, "match_bad_pattern")], [P(3)])]], [0])
